@@ -635,11 +635,10 @@ impl RA {
         if *code != self.code { return Err(format!("code {} expected {}", code, self.code)); }
         // EXTENDED_LEN only says how the length is framed (either form is a legal encoding of
         // the same attribute; which one is chosen is C04/C07's subject)
-        let want_flags = match self.kind {
-            't' => self.flags,
-            _ => self.flags | 0x20,
-        };
-        if *fl & !0x10 != want_flags & !0x10 { return Err(format!("flags {:02x} expected {:02x}", fl, want_flags)); }
+        // ... and whether PARTIAL is set on an Unimplemented / Invalid attribute when it is composed
+        // is C07's subject (C17 speaks of their optional / transitive bits only)
+        let mask = if self.kind == 't' { !0x10u8 } else { !0x30u8 };
+        if *fl & mask != self.flags & mask { return Err(format!("flags {:02x} expected {:02x}", fl, self.flags)); }
         if self.kind == 't' && (self.code == 2 || self.code == 17) {
             if ref_hops(val) != ref_hops(&self.value) { return Err("AS path hops differ".into()); }
         } else if *val != self.value {
@@ -746,7 +745,23 @@ fn oracle_pm(toks: &[&str], reps: &[&str]) -> Result<(), String> {
                     check_ret(&head[1..], old.as_ref(), "set_from_enum").map_err(e)?;
                     a.put(x);
                 } else {
-                    check_ret(&head[1..], None, "set_from_enum").map_err(e)?;
+                    // The property speaks of setting TYPED attributes only.  What set_from_enum does
+                    // with an Unimplemented / Invalid attribute is left free: it may leave the map
+                    // as it is (then nothing was replaced and nothing may be reported), or store the
+                    // attribute under its code like add_attribute does (then it reports nothing or
+                    // the entry it replaced).  Whichever happened is read off the state and carried
+                    // on, so everything the property does state is still judged on the later ops.
+                    let stv = st.ok_or_else(|| e("no state".into()))?;
+                    let mut stored = a.clone();
+                    let old = stored.put(x);
+                    let as_dropped = a.check_state(stv).and_then(|_| check_ret(&head[1..], None, "set_from_enum (map unchanged)"));
+                    let as_stored = stored.check_state(stv).and_then(|_|
+                        if &head[1..] == "-" { Ok(()) } else { check_ret(&head[1..], old.as_ref(), "set_from_enum (attribute stored)") });
+                    match (as_dropped, as_stored) {
+                        (Ok(()), _) => {}
+                        (_, Ok(())) => { a = stored; }
+                        (Err(d), Err(s)) => return Err(e(format!("neither left alone ({}) nor stored ({})", d, s))),
+                    }
                 }
             }
             ["add", spec @ ..] => {
@@ -762,7 +777,18 @@ fn oracle_pm(toks: &[&str], reps: &[&str]) -> Result<(), String> {
                 let old = a.del(c).filter(|x| x.kind == 't');
                 check_ret(&head[1..], old.as_ref(), "remove").map_err(e)?;
             }
-            ["rnt"] => { a.0.retain(|x| x.transitive()); }
+            ["rnt"] => {
+                // typed: the type's flags; unrecognised: the received flags.  An Invalid attribute
+                // (recognised type, malformed value) built by hand with flags that differ from its
+                // type's in the transitive bit comes neither from a typed value nor from an accepted
+                // UPDATE: the property does not say which of the two decides, either outcome is taken
+                let keys: Vec<u8> = st.map(|s| s.rsplit_once('#').map_or("", |x| x.0).split(';')
+                    .filter_map(|it| it.split_once('=').and_then(|(k, _)| k.parse().ok())).collect()).unwrap_or_default();
+                a.0.retain(|x| {
+                    let free = x.kind == 'i' && ref_flags(x.code).map_or(false, |f| (f ^ x.flags) & 0x40 != 0);
+                    if free { keys.contains(&x.code) } else { x.transitive() }
+                });
+            }
             ["sw"] => { std::mem::swap(&mut a, &mut b); }
             ["mg"] => {
                 for x in std::mem::take(&mut b.0) { a.put(x); }
@@ -861,17 +887,24 @@ fn oracle_ws(toks: &[&str], reps: &[&str]) -> Result<(), String> {
                 }
             }
             ["getc"] => {
-                // grouped by flavour: standard, extended, IPv6 extended, large
-                let mut want = Vec::new();
+                // the communities the workshop holds, each flavour in the order it was stored.  How
+                // the four flavours are interleaved in the answer (the code groups them: standard,
+                // extended, IPv6 extended, large; the list as it was set is another legitimate answer)
+                // is not prescribed: the lists are compared flavour by flavour
+                let got: Vec<&str> = if &head[1..] == "-" { vec![] } else { head[1..].split(',').collect() };
+                let mut n = 0;
                 for k in ['s', 'e', 'v', 'l'] {
+                    let mut want = Vec::new();
                     if let Some(x) = a.get_typed(ref_comm_code(k)) {
                         for c in x.value.chunks(ref_comm_size(k)) { want.push(format!("{}{}", k, hex(c))); }
                     }
+                    let have: Vec<&str> = got.iter().copied().filter(|c| c.starts_with(k)).collect();
+                    n += have.len();
+                    if have != want.iter().map(|x| x.as_str()).collect::<Vec<_>>() {
+                        return Err(e(format!("get_attr::<Vec<Community>>() returned [{}], the workshop holds [{}] of flavour {}", &head[1..], want.join(","), k)));
+                    }
                 }
-                let want = if want.is_empty() { "-".to_string() } else { want.join(",") };
-                if head[1..] != want {
-                    return Err(e(format!("get_attr::<Vec<Community>>() returned [{}], the workshop holds [{}]", &head[1..], want)));
-                }
+                if n != got.len() { return Err(e(format!("get_attr::<Vec<Community>>() returned something that is no community: [{}]", &head[1..]))); }
             }
             ["nh", t, h] => {
                 let old = nh.clone().unwrap_or("-".into());
@@ -933,8 +966,8 @@ fn gen_aspath(rng: &mut Rng) -> Vec<u8> {
 }
 
 fn gen_val(rng: &mut Rng, code: u8, valid: bool) -> Vec<u8> {
-    // Invalid attributes stay <= 255 bytes: their two-octet length form is F8 (C07)
-    let big = valid && rng.chance(1, 25);
+    // values over 255 bytes (two-octet length form) for valid and, less often, malformed ones
+    let big = if valid { rng.chance(1, 25) } else { rng.chance(1, 40) };
     let k = |rng: &mut Rng, unit: usize| -> usize {
         if big { 256 / unit + rng.usize(1, 3) } else { rng.usize(if unit == 4 { 0 } else { 1 }, 3) }
     };
@@ -961,7 +994,7 @@ fn gen_val(rng: &mut Rng, code: u8, valid: bool) -> Vec<u8> {
             128 => v.truncate(rng.usize(0, 3)),
             _ => { if v.is_empty() || rng.bool() { v.push(rng.u8()); } else { v.pop(); } }
         }
-        if v.len() > 240 { v.truncate(9); }
+        if big && v.len() < 256 && code != 128 { v = rng.bytes(301); }
         if ref_valid(code, &v) { v.push(0); if ref_valid(code, &v) { v.push(0); } }
     }
     v
@@ -972,15 +1005,15 @@ fn gen_spec(rng: &mut Rng, pool: &[u8]) -> String {
         0..=4 => { let c = *rng.pick(pool); format!("t:{}:{}", c, hex(&gen_val(rng, c, true))) }
         5..=7 => {
             // unimplemented: mostly unrecognised codes; sometimes a recognised code by hand.
-            // EXTENDED_LEN is kept consistent with the value length (F7 is C07's business)
+            // EXTENDED_LEN mostly consistent with the value length, sometimes set on a short value
             let c = if rng.chance(3, 4) { *rng.pick(&UNIMPL_CODES) } else { *rng.pick(pool) };
             let n = if rng.chance(1, 30) { 300 } else { rng.usize(0, 6) };
             let mut fl = *rng.pick(&[0x80u8, 0xC0, 0xC0, 0x40, 0x00, 0xE0, 0xA0, 0xC1]);
-            if n > 255 { fl |= 0x10; }
+            if n > 255 || rng.chance(1, 10) { fl |= 0x10; }
             format!("u:{}:{:02x}:{}", c, fl, hex(&rng.bytes(n)))
         }
         _ => {
-            // invalid: a recognised code with a value of the wrong shape (<= 255 bytes: F8)
+            // invalid: a recognised code with a value of the wrong shape (any size)
             let c = *rng.pick(pool);
             let fl = if rng.chance(2, 3) { ref_flags(c).unwrap_or(0xC0) } else { *rng.pick(&[0x80u8, 0xC0, 0x40, 0x00]) };
             format!("i:{}:{:02x}:{}", c, fl, hex(&gen_val(rng, c, false)))
@@ -1121,14 +1154,15 @@ fn gen_pdu_s(rng: &mut Rng, want_conv: bool, want_mp: bool, four: bool, ap: bool
 
 /// damage inside the attribute section only (section lengths stay): flips flags, codes,
 /// lengths and values, so attributes turn Invalid / Unimplemented / mis-framed (rejected).
-/// Mutants that would step into other properties' open defects are dropped:
-/// Unimplemented with EXTENDED_LEN on a short value (F7), Invalid > 255 bytes (F8),
-/// MP_REACH_NLRI shorter than 5 bytes (F24).
+/// Nothing is filtered: Unimplemented with EXTENDED_LEN on a short value, Invalid > 255 bytes and
+/// MP_REACH_NLRI shorter than 5 bytes all go through (model and code agree on them since the
+/// fixes F7, F8 and 40c5314).
 fn mutate_attrs(rng: &mut Rng, pdu: Vec<u8>) -> Vec<u8> {
     let wl = u16::from_be_bytes([pdu[19], pdu[20]]) as usize;
     let p = 21 + wl;
+    if p + 2 > pdu.len() { return pdu; }
     let al = u16::from_be_bytes([pdu[p], pdu[p + 1]]) as usize;
-    if al == 0 { return pdu; }
+    if al == 0 || p + 2 + al > pdu.len() { return pdu; }
     let mut m = pdu.clone();
     for _ in 0..rng.usize(1, 2) {
         let i = p + 2 + rng.usize(0, al - 1);
@@ -1139,16 +1173,40 @@ fn mutate_attrs(rng: &mut Rng, pdu: Vec<u8>) -> Vec<u8> {
             _ => m[i] = *rng.pick(&[0u8, 1, 2, 3, 4, 8, 14, 15, 16, 0x40, 0x80, 0xC0, 0xD0, 0xFF]),
         }
     }
-    for (fl, code, val) in ref_wire(&m[p + 2..p + 2 + al]) {
-        match ref_flags(code) {
-            None => {
-                if fl & 0x10 != 0 && val.len() <= 255 && code != 14 && code != 15 { return pdu; }
-                if code == 14 && val.len() < 5 { return pdu; }
-            }
-            Some(_) => if !ref_valid(code, &val) && val.len() > 255 { return pdu; },
-        }
+    m
+}
+
+/// damage anywhere after the marker: header length, type, section lengths, the octets of the
+/// conventional withdrawn / announced prefixes (length octets above 32, host bits, truncation)
+fn mutate_frame(rng: &mut Rng, pdu: Vec<u8>) -> Vec<u8> {
+    let mut m = pdu;
+    let wl = u16::from_be_bytes([m[19], m[20]]) as usize;
+    match rng.below(6) {
+        // a prefix-length octet of the withdrawn section
+        0 if wl > 0 => { m[21] = *rng.pick(&[33u8, 40, 64, 128, 255, 32, 31]); }
+        // the last octets are the announced prefixes if there are any
+        1 | 2 => { let n = m.len(); let i = n - 1 - rng.usize(0, 5.min(n - 20)); m[i] = *rng.pick(&[33u8, 40, 129, 255, 0, 1, 32]); }
+        3 => { let i = rng.usize(16, m.len() - 1); m[i] = rng.u8(); }
+        4 => { m.pop(); }
+        _ => { let i = rng.usize(16, m.len() - 1); m[i] ^= 1 << rng.below(8); }
     }
     m
+}
+
+/// an UPDATE whose MP_REACH_NLRI / MP_UNREACH_NLRI is shorter than its fixed part (0..=4 resp.
+/// 0..=2 octets of value): refused by `UpdateMessage::parse` (update.rs:954, :968)
+fn gen_short_mp(rng: &mut Rng, four: bool) -> Vec<u8> {
+    let mut attrs = wire_attr(0x40, 1, &[0], false);
+    attrs.extend(wire_attr(0x40, 2, &gen_val_w(rng, 2, true, four), false));
+    let full = [0u8, 2, 1, 16, 0];
+    if rng.chance(2, 3) { attrs.extend(wire_attr(0x80, 14, &full[..rng.usize(0, 5)], rng.chance(1, 6))); }
+    else { attrs.extend(wire_attr(0x80, 15, &full[..rng.usize(0, 3)], rng.chance(1, 6))); }
+    attrs.extend(wire_attr(0x40, 5, &rng.bytes(4), false));
+    let len = 23 + attrs.len();
+    let mut p = vec![0xffu8; 16];
+    p.extend((len as u16).to_be_bytes()); p.push(2); p.extend([0, 0]);
+    p.extend((attrs.len() as u16).to_be_bytes()); p.extend(attrs);
+    p
 }
 
 /// session suffix of a PDU token and what it stands for
@@ -1157,8 +1215,9 @@ fn gen_sess(rng: &mut Rng) -> (&'static str, bool, bool) {
 }
 
 fn gen_src(rng: &mut Rng, four: bool, ap: bool) -> Vec<u8> {
+    if rng.chance(1, 40) { return gen_short_mp(rng, four); }
     let p = gen_pdu_s(rng, false, false, four, ap);
-    if rng.chance(1, 3) { mutate_attrs(rng, p) } else { p }
+    match rng.below(12) { 0..=3 => mutate_attrs(rng, p), 4 => mutate_frame(rng, p), _ => p }
 }
 
 fn gen_comm(rng: &mut Rng) -> String {
@@ -1303,6 +1362,14 @@ impl Prop for C17 {
                     out.push(format!("pm own{sx}:{q} fu{sx}:{q} rnt"));
                     out.push(format!("ws wfu{sx}:c:{p} getc"));
                     out.push(format!("ws wfu{sx}:m:{p} getc"));
+                    if i % 40 == 9 {
+                        // the acceptance gate on damaged frames and short MP attributes
+                        let r = hex(&mutate_frame(rng, unhex(&p).unwrap()));
+                        let s = hex(&gen_short_mp(rng, f));
+                        out.push(format!("pm fu{sx}:{r} own{sx}:{r} get:1"));
+                        out.push(format!("ws wfu{sx}:c:{r} wfu{sx}:m:{s}"));
+                        out.push(format!("pm fu{sx}:{s} get:1"));
+                    }
                 }
             }
         }
